@@ -107,13 +107,26 @@ def mat(d, rows, cols, idx=0):
 # ------------------------------------------------------------------ Kalman
 
 
-def predict_ref(G, SG, V, SV, P, M):
-    """P' = G P G^T + V M V^T and an entry-wise error scale."""
+def predict_ref(G, SG, V, SV, P, M, jac_abs=None):
+    """P' = G P G^T + V M V^T and an entry-wise error scale.
+
+    jac_abs (used when the result is judged at a magnitude far below 1): allowance, already divided by the
+    tolerance, for the absolute rounding error of a Jacobian entry that an algebraically equivalent form of the
+    derivative (e.g. everything over a common denominator) has although the entry itself is tiny; it enters
+    the covariance through the cross terms |J| |C| dJ^T."""
     Pn = G @ P @ G.T
     A = SG @ np.abs(P) @ SG.T
+    if jac_abs is not None:
+        dG = np.full(G.shape, float(jac_abs))
+        X = np.abs(G) @ np.abs(P) @ dG.T
+        A = A + X + X.T
     if V.shape[1] > 0:
         Pn = Pn + V @ M @ V.T
         A = A + SV @ np.abs(M) @ SV.T
+        if jac_abs is not None:
+            dV = np.full(V.shape, float(jac_abs))
+            X = np.abs(V) @ np.abs(M) @ dV.T
+            A = A + X + X.T
     return Pn, A
 
 
